@@ -434,6 +434,24 @@ def rt_def_handle(ctx, h):
     ctx.evaluations += max(n - 1, 0)
 
 
+BLOCK_SIZE_KINDS = ('IF', 'LOOP', 'DEF', 'IFELSE1', 'IFELSE2', 'TRY1', 'TRY2')
+
+
+def rt_block_size(ctx, case):
+    """a block body of exactly n bytes (one big push, or many small instructions) in each block kind, n on both sides of 2^8, 2^15 and
+    at the largest length the two-byte field holds: the documented encoding, listed and recompiled"""
+    kind, n, filling = case
+    if filling == 'one push':
+        body = (op('PUSH2') + (n - 3).to_bytes(2, 'big') + b'\x5a' * (n - 3)) if n - 3 > 255 else (op('PUSH1') + bytes([n - 2]) + b'\x5a' * (n - 2)) if n >= 2 else op('TRUE') * n
+    else:
+        body = op('TRUE') * n
+    b = wrap((kind,), body)
+    ctx.state((kind, n, filling))
+    if b is None:
+        return
+    check_roundtrip(ctx, b'\x00' + b + b'\x01', {'family': 'round trip: block sizes', 'kind': kind})
+
+
 def rt_vector(ctx, path):
     b = bytes.fromhex(open(path).read().strip())
     ctx.state((path,))
@@ -512,6 +530,9 @@ def blocks(tier, seed):
         Block('roundtrip_nop_codes', list(range(92, 256)), rt_nop, 'every NOP code x every count byte', nshards=32),
         Block('roundtrip_control_programs', lambda s, n: spaces.progs_upto(3 if q else 4, 'full', s, n), rt_ctrl,
               'every control program of the C11 space', nshards=64),
+        Block('roundtrip_block_sizes', [(k, n, f) for k in BLOCK_SIZE_KINDS for n in (0, 1, 255, 256, 257, 32767, 32768, 65534, 65535)
+                                        for f in (('one push', 'small instructions') if n in (257, 65535) or not q else ('one push',))], rt_block_size,
+              'every block kind x body lengths 0, 1, 255..257, 2^15-1, 2^15, 65534, 65535 (one big push / single-byte instructions)', nshards=32),
         Block('roundtrip_def_handles', list(range(256)), rt_def_handle, 'DEF 0..255 from the x / d / plain spellings, bare and inside IF', nshards=32),
         Block('roundtrip_deep_nesting', [(k, d) for k in DEEP_KINDS for d in range(1, (130 if q else 200) + 1)], rt_deep,
               'each block kind (and a rotation of all kinds, and DEF around IFs) nested 1..%d deep around one instruction' % (130 if q else 200), nshards=32),
